@@ -130,6 +130,17 @@ CLAIMED['C16'] = dict(
          'found and repaired (OverflowError from contains).'),
    note=BASE_TB + ' CUSTOM parameters, default-value validation and float isclose tolerances are not modelled; doubles are exact rationals plus inf/nan.',
    technique='Rocq proof (boolean reflection of membership, sorting/permutation, worklist invariant for the builder) + vm_compute correspondence', design='5/C16')
+CLAIMED['C17'] = dict(
+   text=('Theorems (closed under the global context): casts present booleans as True/False, integer-valued values as ints of equal value, '
+         'floats and internal values unchanged; for conditional spaces of any shape, when trial_parameters reports no error the presented '
+         'names are exactly the trial\'s names and every value is a cast of the trial\'s value (C17_presented_exactly_trial_parameters), '
+         'otherwise the result is an error (C17_unconverted_parameter_is_an_error); name[i] parsing and grouping in numeric index order as a '
+         'permutation (C17_indexed_name_parsed, C17_group_in_index_order). REFUTED: a plain parameter x is overwritten when x[0] exists '
+         '(known finding). The characterisation "active parameters only" is decided by the correspondence of the BFS model with '
+         'StudyConfig.trial_parameters and by an oracle that recomputes activity from the space (partial: no theorem relates the BFS to the '
+         'declarative activity relation).'),
+   note=BASE_TB + ' Numeric strings cast "for benchmark use" are outside the model; doubles are exact rationals.',
+   technique='Rocq proof (invariant of the BFS worklist, stable-sort lemma) + vm_compute correspondence', design='5/C17')
 ALL = ['C%02d' % i for i in range(1, 21)]
 m = {
  'version': 1,
